@@ -142,6 +142,8 @@ func buildChain(spec chainSpec) (cc *chainCtx, err error) {
 		}
 		if f, ok := forced[n]; ok {
 			ntx = f
+		} else if n == spec.N-1 && ntx == 0 {
+			ntx = 1 + r.Intn(3) // the tip carries txs: its results are what header tip+1 would commit to
 		}
 		if n == 0 {
 			// set-up: the mini-store root, and every special key (twins with different values) in the plain store
